@@ -27,6 +27,7 @@ type handler struct {
 	gotText   []byte
 	gotOctet  []byte
 	gotOpt    api.OptV
+	gotAny    any
 	respJSON  api.PostJSONRes
 	calls     int
 }
@@ -47,6 +48,18 @@ func (h *handler) PostMultipart(ctx context.Context, req *api.PostMultipartReq) 
 	h.gotMPFile, _ = io.ReadAll(req.F.File)
 	return nil
 }
+func (h *handler) PostFormX(ctx context.Context, req *api.PostFormXReq) error {
+	h.gotAny = req
+	h.calls++
+	return nil
+}
+
+func (h *handler) PostMultiX(ctx context.Context, req *api.PostMultiXReq) error {
+	h.gotAny = req
+	h.calls++
+	return nil
+}
+
 func (h *handler) PostText(ctx context.Context, req api.PostTextReq) (api.PostTextOK, error) {
 	h.calls++
 	h.gotText, _ = io.ReadAll(req)
@@ -242,6 +255,7 @@ func runMedia() {
 			}
 		}
 	}
+	total += runFormFields(c, h)
 	// ---- form
 	for _, f := range []api.PostFormReq{
 		{A: 1}, {A: -1, B: api.NewOptString("")}, {A: math.MaxInt64, B: api.NewOptString("a&b=c d+e%é\n")}, {A: 0, C: []string{"x"}}, {A: 0, C: []string{"x,y", "", "&"}}, {A: 0, C: []string{}},
@@ -333,4 +347,113 @@ func runMedia() {
 	drv.NontrivialN(total)
 	drv.Stat("media_and_response_exchanges", total)
 	drv.Sample(map[string]any{"exchange": "PostJSON", "body": "V{S:\"s\", Na: OptNil{Set, Null}}", "scripted_response": "E4StatusCode{418, {Code:-1}} (4XX pattern)"})
+}
+
+
+// runFormFields: every member of a urlencoded / multipart body (strings, numbers, booleans, enums,
+// formats, arrays and objects under every `encoding` style), one member at a time over the same
+// candidate values as the parameter cells, on a valid base.
+func runFormFields(c *api.Client, h *handler) int64 {
+	ctx := reflect.ValueOf(context.Background())
+	cv := reflect.ValueOf(c)
+	alpha := []string{"a", ",", ".", ";", "=", "|", " ", "%", "/", "&", "+", "?", "#", "\"", "\\", "[", "]", "é", "\r\n", "-"}
+	var total int64
+	for _, op := range []struct {
+		name, media string
+		typ         reflect.Type
+	}{{"PostFormX", "application/x-www-form-urlencoded", reflect.TypeOf(api.PostFormXReq{})}, {"PostMultiX", "multipart/form-data", reflect.TypeOf(api.PostMultiXReq{})}} {
+		m := cv.MethodByName(op.name)
+		if !m.IsValid() {
+			drv.Fatal("client has no method %s", op.name)
+		}
+		for fi := 0; fi < op.typ.NumField(); fi++ {
+			ft := op.typ.Field(fi)
+			base := ft.Type
+			opt := isOptWrapper(base)
+			if opt {
+				vf, _ := base.FieldByName("Value")
+				base = vf.Type
+			}
+			cl := cell{Loc: "body", Style: ft.Name, Shape: "string", Required: !opt}
+			switch ft.Name {
+			case "E":
+				cl.Shape = "enum"
+				cl.Schema = map[string]any{"enum": []any{"a", "b c", "d,e"}}
+			case "Dt":
+				cl.Shape = "date-time"
+			}
+			cands := candidates(base, cl, alpha)
+			if opt {
+				for i := range cands {
+					x := reflect.New(ft.Type).Elem()
+					x.FieldByName("Value").Set(cands[i].v)
+					x.FieldByName("Set").SetBool(true)
+					cands[i].v = x
+				}
+				cands = append(cands, cand{reflect.New(ft.Type).Elem(), true, "<absent>", "absent"})
+			}
+			for _, cd := range cands {
+				total++
+				req := reflect.New(op.typ)
+				req.Elem().FieldByName("S").SetString("base")
+				req.Elem().FieldByName("I").SetInt(1)
+				req.Elem().Field(fi).Set(cd.v)
+				h.gotAny, h.calls = nil, 0
+				var callErr error
+				var pan any
+				func() {
+					defer func() { pan = recover() }()
+					out := m.Call([]reflect.Value{ctx, req})
+					if !out[0].IsNil() {
+						callErr = out[0].Interface().(error)
+					}
+				}()
+				k := mkase{op.name, fmt.Sprintf("%s = %s", ft.Name, cd.desc), "", ""}
+				report := func(kind string) {
+					drv.Violation(map[string]string{"class": "media/body-member-" + kind + "/" + op.name + "/" + ft.Name, "kind": "body-member-" + kind, "media": op.media, "member": ft.Name, "value_class": cd.class}, len(cd.desc), k)
+				}
+				switch {
+				case pan != nil:
+					k.Error = fmt.Sprint(pan)
+					report("panic")
+				case callErr != nil:
+					k.Error = callErr.Error()
+					if len(k.Error) > 300 {
+						k.Error = k.Error[:300]
+					}
+					if h.calls != 0 {
+						report("error-reported-but-handler-ran")
+					}
+					if cd.core {
+						report("core-value-not-delivered")
+					}
+				case h.calls != 1 || h.gotAny == nil:
+					report("no-error-but-handler-not-invoked-once")
+				default:
+					got := reflect.ValueOf(h.gotAny).Elem()
+					k.Got = fmt.Sprintf("%#v", got.Field(fi).Interface())
+					for fj := 0; fj < op.typ.NumField(); fj++ {
+						if fj != fi && !deepEq(got.Field(fj), req.Elem().Field(fj)) {
+							k.Got = fmt.Sprintf("member %s arrived as %#v", op.typ.Field(fj).Name, got.Field(fj).Interface())
+							report("other-member-changed")
+						}
+					}
+					if !deepEq(got.Field(fi), cd.v) {
+						if cd.class == "empty-object" && opt {
+							if setF := got.Field(fi).FieldByName("Set"); setF.IsValid() && !setF.Bool() {
+								break
+							}
+						}
+						if cd.core {
+							report("core-value-changed")
+						} else {
+							report("different-value-delivered")
+						}
+					}
+				}
+			}
+		}
+	}
+	drv.Stat("body_member_calls", total)
+	return total
 }
